@@ -155,8 +155,24 @@ func (p *Program) TypeOf(t types.Type, subst map[*types.TypeParam]types.Type) *T
 				sub[k] = v
 			}
 			tps := x.Origin().TypeParams()
+			var targs []types.Type
+			changed := false
 			for i := 0; i < tps.Len() && i < x.TypeArgs().Len(); i++ {
-				sub[tps.At(i)] = resolve(x.TypeArgs().At(i), subst)
+				r := resolve(x.TypeArgs().At(i), subst)
+				sub[tps.At(i)] = r
+				targs = append(targs, r)
+				if r != x.TypeArgs().At(i) {
+					changed = true
+				}
+			}
+			if changed && len(targs) == tps.Len() {
+				// canonical Go type with the type arguments resolved (dynamic-type tags are keyed by its string)
+				if it, err := types.Instantiate(nil, x.Origin(), targs, false); err == nil {
+					t = it
+					if nn, ok := it.(*types.Named); ok {
+						x = nn
+					}
+				}
 			}
 		}
 		switch u := x.Underlying().(type) {
@@ -192,10 +208,14 @@ func (p *Program) TypeOf(t types.Type, subst map[*types.TypeParam]types.Type) *T
 		return &Type{K: KOpaque, G: t}
 	case *types.Pointer:
 		el := p.TypeOf(x.Elem(), subst)
-		if el.K == KStruct {
-			return &Type{K: KRef, Name: el.Name, G: t, St: el.St, Subst: el.Subst}
+		var g types.Type = t
+		if el.G != nil && el.G != x.Elem() {
+			g = types.NewPointer(el.G) // canonical (type arguments resolved)
 		}
-		return &Type{K: KRef, Elem: el, G: t}
+		if el.K == KStruct {
+			return &Type{K: KRef, Name: el.Name, G: g, St: el.St, Subst: el.Subst}
+		}
+		return &Type{K: KRef, Elem: el, G: g}
 	case *types.Struct:
 		return &Type{K: KStruct, Name: "anon." + mangle(x.String()), G: t, St: x, Subst: subst}
 	case *types.Map:
